@@ -12,7 +12,7 @@ PASS3 = ['<<>>', '<<"PassDoubleDash">>', '<<"IgnoreUnknown">>', '<<"PassAfterNon
 DEFAULTISH = ['<<>>', '<<"PassDoubleDash">>', '<<"HelpFlag", "PassDoubleDash", "PrintErrors">>', '<<"IgnoreUnknown", "PassAfterNonOption">>']
 
 ALL_INVS = ['Deterministic', 'Terminates', 'Typed', 'ConservationStep', 'Conservation', 'ChainFromWords', 'ScopeAgrees',
-            'OccInScope', 'UnknownNeverSilent', 'ExecSafety', 'RequiredEnforced', 'ValuesDenote', 'UntouchedWithoutOccurrence']
+            'OccInScope', 'UnknownNeverSilent', 'ExecSafety', 'RequiredEnforced', 'ValuesDenote', 'UntouchedWithoutOccurrence', 'ActiveIsChain']
 
 # exhaustive-model bounds per property: quick / thorough
 ARG_MC = {
@@ -29,6 +29,13 @@ ARG_MC = {
                 handlers=['none'], maxlen=(3, 4), thorough_decls=[3, 5, 7, 10]),
     'C10': dict(decls=[4, 5, 7], policy=['opts', 'cmds', 'odd'], popts=PASS3, handlers=['none'], maxlen=(3, 4), thorough_decls=[4, 5, 7]),
 }
+# a second exhaustive model for the properties that speak about the active chain: the judged parse is the SECOND ParseArgs of one
+# parser, after a first one that selected each command path of the three-level declaration D18
+ARG_MC_REUSE = {
+    'C06': dict(decls=[18], policy=['opts', 'cmds'], popts=['<<>>'], handlers=['none'], maxlen=(2, 3), thorough_decls=[18, 13], premode='cmds'),
+    'C08': dict(decls=[18], policy=['opts', 'cmds'], popts=['<<>>'], handlers=['none'], maxlen=(2, 3), thorough_decls=[18, 13], premode='cmds'),
+    'C09': dict(decls=[18], policy=['opts', 'cmds', 'unknown'], popts=['<<>>', '<<"HelpFlag">>'], handlers=['none'], maxlen=(2, 3), thorough_decls=[18, 13], premode='cmds'),
+}
 # random direction: (trees, scenarios per tree) quick / thorough
 ARG_RANDOM = {'quick': (120, 60), 'thorough': (1500, 80)}
 
@@ -40,10 +47,17 @@ class ArgParseFamily:
     name = 'argparse'
 
     def mc(self, ctx, prop):
-        """exhaustive run of MC_ArgParse with the property's bounds; returns (states, transitions, scenario lines)"""
-        b = ARG_MC[prop]
+        states, gen, scns, d, info = self.mc_one(ctx, ARG_MC[prop], 'mc')
+        if prop in ARG_MC_REUSE:
+            s2, g2, scns2, d2, info2 = self.mc_one(ctx, ARG_MC_REUSE[prop], 'mcr')
+            states, gen, scns = states + s2, gen + g2, scns + scns2
+            info = dict(info, reused_parser_model=info2)
+        return states, gen, scns, d, info
+
+    def mc_one(self, ctx, b, tag):
+        """exhaustive run of MC_ArgParse with the given bounds; returns (states, transitions, scenario lines)"""
         thorough = ctx.tier == 'thorough'
-        d = ctx.specdir('mc')
+        d = ctx.specdir(tag)
         cat = os.path.join(ROOT, 'catalog', 'argparse.ndjson')
         ctx.vh('decls', '-trees', cat, '-decls', os.path.join(d, 'catalog_decls.ndjson'))
         decls = b['thorough_decls'] if thorough else b['decls']
@@ -51,9 +65,9 @@ class ArgParseFamily:
         open(os.path.join(d, 'MCrun.tla'), 'w').write(
             '---- MODULE MCrun ----\nEXTENDS MC_ArgParse\nc_POptSets == {%s}\n====\n' % ', '.join(b['popts']))
         cfg = ('SPECIFICATION Spec\nCONSTANTS\n  Defects = {}\n  DeclIds = {%s}\n  MaxLen = %d\n  POptSets <- c_POptSets\n'
-               '  Handlers = {%s}\n  Policy = {%s}\n  Emit = TRUE\nINVARIANTS\n  %s EmitScenario\nPROPERTIES\n  ExecOnlyAtDispatch\nCHECK_DEADLOCK FALSE\n'
+               '  Handlers = {%s}\n  Policy = {%s}\n  PreMode = "%s"\n  Emit = TRUE\nINVARIANTS\n  %s EmitScenario\nPROPERTIES\n  ExecOnlyAtDispatch\nCHECK_DEADLOCK FALSE\n'
                % (', '.join(map(str, decls)), maxlen, ', '.join('"%s"' % h for h in b['handlers']),
-                  ', '.join('"%s"' % p for p in b['policy']), ' '.join(ALL_INVS)))
+                  ', '.join('"%s"' % p for p in b['policy']), b.get('premode', 'none'), ' '.join(ALL_INVS)))
         rc, out = ctx.tlc(d, 'MCrun', cfg, workers=NCPU, timeout=3000)
         if not ctx.tlc_ok(out):
             # an invariant of the specification itself failed: the model is wrong (or a defect switch is on); not a verdict about the code
@@ -62,7 +76,7 @@ class ArgParseFamily:
         scns = []
         for m in re.finditer(r'^"SCN (.*)"$', out, re.M):
             scns.append(json.loads(m.group(1).replace('\\"', '"').replace('\\\\', '\\')))
-        return states, gen, scns, d, dict(decls=decls, maxlen=maxlen, popts=len(b['popts']), handlers=b['handlers'], policy=b['policy'])
+        return states, gen, scns, d, dict(decls=decls, maxlen=maxlen, popts=len(b['popts']), handlers=b['handlers'], policy=b['policy'], premode=b.get('premode', 'none'))
 
     def mc_spell(self, ctx):
         """C02: exhaustive pair model MC_Spell"""
